@@ -15,7 +15,7 @@ P49 = "p" * 49
 
 POOLS = {
     "f": [NAN, 0.0, -0.0, 1.0, -1.0, 2.5, INF, -INF, 2.0**53, 2.0**53 + 2, -2.0**60, 1e-7, 1e16, 5e-324],
-    "i": [0, 1, -1, 2, 7, 2**31, -2**31, 2**53 + 1, -(2**53 + 1), 2**63 - 1, -2**63 + 1],
+    "i": [0, 1, -1, 2, 7, 2**31, -2**31, 2**53 + 1, -(2**53 + 1), 2**63 - 1, -2**63 + 1, -2**63],
     "b": [True, False],
     "s": ["", "a", "b", "ab", "B", "é", "日本", "😀", " a", P49 + "a", P49 + "b", P49, "q" * 70],
     "u": ["", "a", "b", "ab", "B", "é", "日本", " a"],
@@ -29,6 +29,8 @@ POOLS = {
     "oi": [None, 1, 2, 3],
     "ob": [None, True, False],
     "y": ["a", "b", "ab", "B"],
+    "i8": [-128, -127, -1, 0, 1, 127],
+    "u8": [0, 1, 2, 254, 255],
 }
 
 # Small pools (2-3 distinct non-missing values) that make ties and duplicate keys the norm.
@@ -37,6 +39,7 @@ TIGHT = {
     "s": ["", "a", "b", P49 + "a"], "u": ["", "a", "b"], "d": [None, "1970-01-01", "2020-12-31"],
     "t": [None, "1970-01-01T00:00:00.000001", "2020-12-31T12:00:00"], "tm": POOLS["tm"][:3], "ts": POOLS["ts"][:3],
     "td": [None, 0, 1], "o": [None, "a", "b"], "oi": [None, 1, 2], "ob": [None, True, False], "y": ["a", "b"],
+    "i8": [-128, 0, 127], "u8": [0, 1, 255],
 }
 
 _text = st.text(alphabet=st.characters(blacklist_categories=("Cs",), blacklist_characters="\x00"), max_size=12)
@@ -45,7 +48,7 @@ _datetimes = st.datetimes(min_value=datetime.datetime(1, 1, 1), max_value=dateti
 
 TAILS = {
     "f": st.floats(allow_nan=True, allow_infinity=True, width=64),
-    "i": st.integers(-2**63 + 1, 2**63 - 1),
+    "i": st.integers(-2**63, 2**63 - 1),
     "b": st.booleans(),
     "s": _text,
     "u": _text.filter(lambda s: not s.endswith("\x00")),
@@ -58,6 +61,8 @@ TAILS = {
     "oi": st.integers(-9, 9),
     "ob": st.booleans(),
     "y": st.text(alphabet="abAB", min_size=1, max_size=3),
+    "i8": st.integers(-128, 127),
+    "u8": st.integers(0, 255),
 }
 
 NA_VALUE = {"f": NAN, "s": "", "u": "", "d": None, "t": None, "tm": None, "ts": None, "td": None,
@@ -94,8 +99,10 @@ def values(draw, kind, n, mode=None, na=None):
 
 
 def nrows(max_rows):
-    """Row counts with 0 and 1 over-weighted."""
-    return st.one_of(st.sampled_from([0, 1, 2, 3]), st.integers(0, max_rows), st.integers(2, max_rows))
+    """Row counts with 0 and 1 over-weighted; one integer draw so that it shrinks towards 0."""
+    extra = [0, 0, 1, 1, 2, 3, 3]
+    return st.integers(0, max_rows + len(extra)).map(
+        lambda x: x if x <= max_rows else extra[x - max_rows - 1])
 
 
 NAMES_PLAIN = ["a", "b", "c", "x1", "é", "_p", "g", "h"]
